@@ -476,6 +476,7 @@ class MarkdownNormalizer(Renderer):
             # An item with nothing in it is still an item: write its marker.
             result += self._prefix.rstrip() + "\n"
             self._prefix = self._second_prefix
+            self._suppress_item_break = False  # see render_thematic_break
             return result
 
         result += self.render_children(element)
@@ -566,6 +567,9 @@ class MarkdownNormalizer(Renderer):
     def render_thematic_break(self, _element: block.ThematicBreak) -> str:
         # Reset the skip flag since we're not rendering a blank line
         self._skip_next_blank_line = False
+        # Like a paragraph: a blank line written before the rule must not swallow the break
+        # before the next list item.
+        self._suppress_item_break = False
         result = f"{self._prefix}* * *\n"
         self._prefix = self._second_prefix
         return result
@@ -783,6 +787,7 @@ class MarkdownNormalizer(Renderer):
         """
         # Reset the skip flag since we're not rendering a blank line
         self._skip_next_blank_line = False
+        self._suppress_item_break = False  # see render_thematic_break
         lines: list[str] = []
         head, *body = element.children
         # Table lines carry the container prefixes (e.g. "> " inside a block quote) like any block.
